@@ -58,7 +58,8 @@ Definition cyclic (nodes : list string) (es : list edge) : bool :=
    an error.  KSelfTarget (a callback naming itself and nothing else naming it) and, since /repo e28c215
    (Replace inherits the requests of a "*" callback), KStarReplace are labels only: nothing is excused
    for them any more. *)
-Inductive kclass := KNone | KSelfTarget | KNamedCycle | KStarUnsat | KStarReplace | KAfterOverwritten | KSelfSilent.
+Inductive kclass := KNone | KSelfTarget | KNamedCycle | KStarUnsat | KStarReplace | KAfterOverwritten | KSelfSilent
+                  | KStaleRequest.
 
 Definition self_target (live : list entry) : bool :=
   existsb (fun e => (negb (is_none (e_before e)) && String.eqb (e_before e) (e_name e))
@@ -88,6 +89,19 @@ Definition after_overwritten (live : list entry) : bool :=
     | None => false
     end) live.
 
+(* a removed callback n had asked to run Before/After the callback t; t is still the same registration and
+   a NEW callback is registered under the name n: the request sortCallbacks wrote into t for the old n
+   (cs[idx].after = c.name / after.before = c.name) now binds the new one *)
+Definition stale_request (r : rstate) : bool :=
+  existsb (fun g => match g with
+                    | (tn, treg, n) =>
+                      is_live (r_live r) n
+                      && match find_live (r_live r) tn with
+                         | Some t => N.eqb (e_reg t) treg
+                         | None => false
+                         end
+                    end) (r_ghosts r).
+
 Definition class_of (r : rstate) : kclass :=
   let live := r_live r in
   let nodes := map e_name live in
@@ -96,6 +110,7 @@ Definition class_of (r : rstate) : kclass :=
   else if negb (cyclic nodes base) && (cyclic nodes (base ++ star_edges live) || both_star live) then KStarUnsat
   else if star_replaced live then KStarReplace
   else if after_overwritten live then KAfterOverwritten
+  else if stale_request r then KStaleRequest
   else if self_target live then KSelfTarget
   else if cyclic nodes base then KNamedCycle
   else KNone.
@@ -129,10 +144,10 @@ Definition reg_forms (u : string) (ts : list string) : list step :=
 (* (the parameter is called [builtins] for historical reasons: it is the whole alphabet) *)
 Definition next_steps (builtins : alphabet) (r : rstate) : list step :=
   let nreg := length (filter (fun u => mem (r_used r) u) (a_users builtins)) in
-  (match nth_error (a_users builtins) nreg with
-   | Some u => reg_forms u (targets builtins)
-   | None => []
-   end)
+  (* the next user name never used so far, and every user name that was removed (free again) *)
+  flat_map (fun u => reg_forms u (targets builtins))
+           ((match nth_error (a_users builtins) nreg with Some u => [u] | None => [] end)
+            ++ filter (fun u => mem (r_used r) u && negb (is_live (r_live r) u)) (a_users builtins))
   ++ flat_map (fun e => [mk_step KReplace (e_name e) "" "" false true;
                          mk_step KRemove (e_name e) "" "" false true]) (r_live r).
 
